@@ -20,7 +20,7 @@ LEVEL_TEXT = ("Coq theorems for all rational sequences: the modelled index equal
 LEVEL_NOTE = ("trusted: hand model of the xarray plumbing (shift/sum skipna, max/min skipna=False, sel, mean) validated by correspondence; "
               "translator for S1; binary64 rounding not modelled (inputs are dyadic, tolerance 1e-9)")
 TECHNIQUE = "Coq proof over an executable model + extracted-model correspondence check + invariance predicates on the implementation"
-SITES = ["S1"]
+SITES = ["S1", "C18.exceed"]
 RULE = ("sequences of length 1-8 on the dyadic grid k/4 (|k|<=32) with forced ties, monotone runs and NaN slots; angle sets on a 22.5-degree "
         "grid shifted beyond +-360 with antipodal pairs, duplicates and dyadic rotations (non-multiples of 10 degrees); arrays with 1-2 extra "
         "dims stored in shuffled coordinate order; selections by coordinate label (repeats, absent labels); thresholds including exact index "
